@@ -1,5 +1,5 @@
 (* C08 — minimize preserves meaning, never lengthens, and is idempotent (all well-formed triples). *)
-From UL Require Import Bytes Subtags LangId Likely Inst TablesData LikelyProofs.
+From UL Require Import Bytes Subtags LangId Likely Inst LikelySpec TablesData LikelyProofs LikelySpecProofs.
 From Coq Require Import String.
 
 Definition MX := maxed the_tables.
@@ -52,6 +52,12 @@ Example C08_ex : wf_triple (Some (bs "zh"%string)) (Some (bs "Hant"%string)) (So
      = Ok (Some (Some (bs "zh"%string), None, Some (bs "TW"%string))).
 Proof. split; vm_compute; reflexivity. Qed.
 
+(* the chosen form equals the independent dictionary-based reference, for every well-formed triple *)
+Theorem C08_matches_spec : forall l s r, wf_triple l s r = true ->
+  minimize the_tables l s r = Ok (spec_minimize the_dict l s r).
+Proof. exact minimize_is_spec. Qed.
+
+Print Assumptions C08_matches_spec.
 Print Assumptions C08_char.
 Print Assumptions C08_count_le.
 Print Assumptions C08_idem.
